@@ -82,13 +82,27 @@ impl List {
         empty: bool,
         compact: bool,
     ) -> Result<Self, Error> {
-        // Compute array size
+        if lg_arr > 26 {
+            return Err(Error::deserial(format!(
+                "lg_arr must be at most 26, got {lg_arr}"
+            )));
+        }
+
+        // Number of coupons stored in the image
         let array_size = if compact { coupon_count } else { 1 << lg_arr };
 
+        // The in-memory table keeps its full size (with empty cells), also when the image
+        // is compact, so that the sketch stays updatable after deserialization.
+        let mut table_size = 1usize << lg_arr;
+        while table_size <= coupon_count {
+            table_size <<= 1;
+        }
+        let lg_arr = table_size.trailing_zeros() as usize;
+
         // Read coupons
-        let mut coupons = vec![0u32; array_size];
+        let mut coupons = vec![0u32; table_size];
         if !empty && coupon_count > 0 {
-            for (i, coupon) in coupons.iter_mut().enumerate() {
+            for (i, coupon) in coupons.iter_mut().take(array_size).enumerate() {
                 *coupon = cursor.read_u32_le().map_err(|_| {
                     Error::insufficient_data(format!(
                         "expect {coupon_count} coupons, failed at index {i}"
